@@ -77,6 +77,8 @@ SENSITIVITY = [
     "zero-repetition records shaped (0,1,1) (reverts fix bec16e6)",
     "measurements caches a partial mapping (reverts fix 78ab3f1)",
     "measurements view takes the last instance of a repeated key",
+    "sample reads parameter values in resolver order under sorted column names",
+    "vectorized histogram batches overwrite earlier counts",
 ]
 
 DTYPES = {"bool": np.bool_, "uint8": np.uint8, "int8": np.int8, "int64": np.int64}
@@ -1343,14 +1345,14 @@ def uncovered():
 
 
 SUBCHECKS = [
-    SubCheck("records", _records_case(), oracle_records, quick=5200, thorough=240000, shards_quick=8, shards_thorough=16,
+    SubCheck("records", _records_case(), oracle_records, quick=4600, thorough=240000, shards_quick=8, shards_thorough=16,
              essential={"wide_gt64": 0.1, "qudit": 0.2, "zero_reps": 0.04, "multi_instance": 0.08, "int_overflows_int64": 0.05}),
-    SubCheck("long", _long_case(), oracle_long, quick=30, thorough=1500, shards_quick=3, shards_thorough=16,
+    SubCheck("long", _long_case(), oracle_long, quick=24, thorough=1500, shards_quick=3, shards_thorough=16,
              essential={"reps_gt_50000": 0.2, "reps_ge_100000": 0.05}),
-    SubCheck("digits", _digits_case(), oracle_digits, quick=5000, thorough=300000, shards_quick=4, shards_thorough=8,
+    SubCheck("digits", _digits_case(), oracle_digits, quick=4000, thorough=300000, shards_quick=4, shards_thorough=8,
              essential={"mixed": 0.2, "gt64bits": 0.1}),
-    SubCheck("store", _store_case(), oracle_store, quick=1600, thorough=80000, shards_quick=2, shards_thorough=8),
-    SubCheck("samplers", _sampler_case(), oracle_samplers, quick=2000, thorough=100000, shards_quick=6, shards_thorough=16,
+    SubCheck("store", _store_case(), oracle_store, quick=1200, thorough=80000, shards_quick=2, shards_thorough=8),
+    SubCheck("samplers", _sampler_case(), oracle_samplers, quick=1440, thorough=100000, shards_quick=6, shards_thorough=16,
              essential={"multi_resolver": 0.2, "per_program_reps": 0.1, "qudit": 0.1}),
     SubCheck("abstract", None, oracle_abstract, enumerate=lambda tier: [{}], exhaustive_in=("quick", "thorough"), shards_quick=1,
              shards_thorough=1),
